@@ -621,6 +621,43 @@ func (m *scanModel) effects(cfg smConfig, p *Path, t *smTrans) {
 		}
 		return nil, false
 	}
+	// the end-of-line trimming: the only slices taken of the line as passed in
+	// are line[:len(line)-2] after a CRLF test and line[:len(line)-1] after an
+	// LF test that succeeded
+	for _, ev := range p.Events {
+		if ev.Kind != EvSlice || ev.Addr == nil || ev.Addr.Op != OpParam || ev.Addr.Name != m.lineP.Name() {
+			continue
+		}
+		v := ev.Val
+		want := int64(0)
+		glob := ""
+		if crlf, ok := t.Lits["eol:crlf"]; ok && crlf {
+			want, glob = 2, "crlf"
+		} else if lf, ok := t.Lits["eol:lf"]; ok && lf {
+			want, glob = 1, "lf"
+		}
+		good := false
+		if want > 0 && v.Op == OpSlice && len(v.Args) == 4 && v.Args[1] == nil && v.Args[2] != nil && v.Args[3] == nil {
+			hi := v.Args[2]
+			if hi.Op == OpBin && hi.Tok == token.SUB && hi.Args[0].Op == OpBuiltin && hi.Args[0].Name == "len" && len(hi.Args[0].Args) == 1 && hi.Args[0].Args[0].Op == OpParam {
+				if k, isC := hi.Args[1].intConst(); isC && k == want {
+					good = true
+				}
+				if r := hi.Args[1]; r.Op == OpBuiltin && r.Name == "len" && len(r.Args) == 1 {
+					if g := r.Args[0].globalLoaded(); g != nil && g.Name() == glob {
+						good = true
+					}
+				}
+			}
+		}
+		// an unterminated last line keeps all its bytes; its indentation prefix may be cut off
+		if v.Op == OpSlice && len(v.Args) == 4 && v.Args[1] != nil && v.Args[2] == nil && v.Args[3] == nil && strings.Contains(v.Args[1].String(), "s.prefix") {
+			good = true
+		}
+		if !good {
+			problem("SM-ref", "state:"+cfg.State+"/eol-trim", "the line terminator is not removed as line[:len(line)-2] for CRLF / line[:len(line)-1] for LF: "+v.Canon(m.hook)+" — every later test and every parsed field sees other bytes than the line", ev.Pos)
+		}
+	}
 	for _, ev := range p.Events {
 		switch ev.Kind {
 		case EvDeref:
